@@ -21,6 +21,13 @@ CALL SYNTAX dimension of the binding: every function action is also called as fn
 Q{uri}name(..), through a named reference name#n(..), as a partial application name(?, ..)(S) and with
 the arrow operator S => name(..) - same expected value; configuration falsy-uf (items 0, 0.0, '', false(),
 1, -1) evaluates ALL syntaxes on every edge and must produce a falsy single result for every function.
+UNTYPED data (universe uu: xs:untypedAtomic '2' 'NaN' 'x' and the element whose text is NaN, in every
+position among integer/decimal/float/double items): aggregates cast it to xs:double (FORG0001), index-of /
+distinct-values compare it as a string.  RangeFn: a range `a to b` written DIRECTLY (no parentheses) as the
+argument of count/empty/exists/sum/avg/max/min/reverse/head/tail/subsequence/... and as the binding
+sequence of for/some/every, bounds -3 -1 1 3 10 in both directions.  Group "coll": the parser's DEFAULT
+COLLATION (codepoint / html-ascii-case-insensitive) is a dimension of index-of and distinct-values:
+no collation argument, the collation as argument, default-collation() as argument - same value.
 ForDep / ForDep3 / QuantDep are for / some / every with 2 and 3 clauses whose inner ranges DEPEND on
 the outer variable (1 to $x - 1, $x to 2, S[. lt $x]; empty for the first / a middle / the last outer
 value), in the multi-clause and in the nested spelling (law: several clauses = nested = tuple stream).
@@ -78,6 +85,8 @@ TIERS = {
         ('agg-u9', dict(MaxDepth=2, MaxLen=4, InitLen=2, UniverseName='u9', GridName='full', Groups={'agg'})),
         ('focus-u3', dict(MaxDepth=2, MaxLen=4, InitLen=3, UniverseName='u3', GridName='full', Groups={'focus'})),
         ('eq-ux', dict(MaxDepth=2, MaxLen=4, InitLen=2, UniverseName='ux', GridName='full', Groups={'agg', 'iter'})),
+        ('untyped-uu', dict(MaxDepth=2, MaxLen=4, InitLen=2, UniverseName='uu', GridName='full', Groups={'agg'})),
+        ('coll-uc', dict(MaxDepth=2, MaxLen=4, InitLen=3, UniverseName='uc', GridName='small', Groups={'coll', 'range'})),
         ('nodes-un', dict(MaxDepth=2, MaxLen=4, InitLen=3, UniverseName='un', GridName='small', Groups={'nodes', 'cat'})),
         ('falsy-uf', dict(MaxDepth=2, MaxLen=4, InitLen=2, UniverseName='uf', GridName='small', Groups={'agg', 'pos'})),
         ('comp-u4-d2', dict(MaxDepth=3, MaxLen=4, InitLen=2, UniverseName='u4', GridName='small', Groups=ALL_GROUPS)),
@@ -89,6 +98,8 @@ TIERS = {
                          Groups={'iter', 'agg', 'cat'})),
         ('comp-u4-d2', dict(MaxDepth=3, MaxLen=4, InitLen=2, UniverseName='u4', GridName='small', Groups=ALL_GROUPS)),
         ('eq-ux', dict(MaxDepth=2, MaxLen=4, InitLen=2, UniverseName='ux', GridName='full', Groups={'agg', 'iter'})),
+        ('untyped-uu', dict(MaxDepth=2, MaxLen=4, InitLen=3, UniverseName='uu', GridName='full', Groups={'agg'})),
+        ('coll-uc', dict(MaxDepth=2, MaxLen=4, InitLen=3, UniverseName='uc', GridName='small', Groups={'coll', 'range'})),
         ('nodes-un-d2', dict(MaxDepth=3, MaxLen=4, InitLen=2, UniverseName='un', GridName='small',
                              Groups={'nodes', 'pos', 'cat'})),
         ('falsy-uf', dict(MaxDepth=2, MaxLen=4, InitLen=3, UniverseName='uf', GridName='small', Groups={'agg', 'pos'})),
@@ -149,6 +160,9 @@ def item_text(it, style: str) -> str:
     if t == 'str':
         s = ''.join(chr(c) for c in it['s']).replace("'", "''")
         return f"xs:string('{s}')" if style == 'ctor' else f"'{s}'"
+    if t == 'unt':
+        v = ''.join(chr(c) for c in it['s'])
+        return f"xs:untypedAtomic('{v}')" if style != 'ctor' else f'xs:untypedAtomic("{v}")'
     if t == 'node':
         d = it['q'][0]
         if d == 1:
@@ -203,7 +217,7 @@ def consumer_text(F: str, E: str, v: str) -> str:
 
 def action_versions(action: str, args: tuple):
     vs = ACTION_VERSIONS.get(action, ALLV)
-    if action == 'NodeMap':
+    if action == 'NodeMap' or (action == 'RangeFn' and args[0] in ('head', 'tail', 'map1')):
         return V30
     if action in ('MapFocus', 'ForFocus', 'PredFocus', 'QuantFocus'):
         if action == 'MapFocus' or 'head' in args[:2] or any(isinstance(a, str) and a.startswith('!') for a in args):
@@ -345,6 +359,17 @@ def expr_for(X: str, action: str, args: tuple, n: int, sfx: str, fstyle: str = '
         q, F = args[0], args[1]
         C = consumer_text(F, f'(. + 1, . + 2)[. lt {T(2)}]', f'$v{sfx}')
         return f'{q} {x} in {X} satisfies {C}'
+    if action == 'RangeFn':
+        F, R = args[0], f'{args[1]} to {args[2]}'          # the range is the DIRECT operand: no parentheses
+        return {'subsequence2': f'subsequence({R}, 2)', 'for1': f'for {x} in {R} return 1', 'map1': f'({R}) ! 1',
+                'some': f'some {x} in {R} satisfies {x} gt 0',
+                'every': f'every {x} in {R} satisfies {x} gt 0'}.get(F) or f'{F}({R})'
+    if action in ('IndexOfC', 'DistinctC'):
+        coll, form = args[-2], args[-1]
+        extra = {'default': '', 'arg': f", '{COLL_URI[coll]}'", 'fn': ', default-collation()'}[form]
+        if action == 'IndexOfC':
+            return f'index-of({X}, {T(0)}{extra})'
+        return f'distinct-values({X}{extra})'
     if action == 'NodeMap':
         return f'{X} ! {args[0]}'
     if action == 'NodeFor':
@@ -382,7 +407,7 @@ def _on_alarm(signum, frame):
 
 
 _root = None
-NODE_XML = '<r><n k="x">5</n><n k="y">6</n><n k="z">7</n></r>'     # document-order ids: r=1, n[i]=2i, n[i]/@k=2i+1
+NODE_XML = '<r><n k="x">5</n><n k="y">NaN</n><n k="z">7</n></r>'     # document-order ids: r=1, n[i]=2i, n[i]/@k=2i+1
 ATTR_VALUES = 'xyz'                                                    # unique: identify the attribute nodes in results
 NODE_TEXT = re.compile(r'/r\b|\(//n\)|\(/\*\)')
 
@@ -421,19 +446,35 @@ def project(r):
         return (t, 'fin', float(r))
     if type(r) is str:
         return ('str', tuple(ord(c) for c in r))
+    if type(r).__name__ == 'UntypedAtomic':
+        return ('unt', tuple(ord(c) for c in str(r.value)))
     return ('other', type(r).__name__ + ':' + repr(r)[:40])
 
 
-def evaluate(text: str, version: str):
+COLL_URI = {'cp': 'http://www.w3.org/2005/xpath-functions/collation/codepoint',
+            'ci': 'http://www.w3.org/2005/xpath-functions/collation/html-ascii-case-insensitive'}
+
+
+def default_collation_for(action: str, args: tuple):
+    """the parser's default collation for the evaluation of a "coll" action (None: the library default)"""
+    if action not in ('IndexOfC', 'DistinctC'):
+        return None
+    coll, form = args[-2], args[-1]
+    if form == 'arg':                     # the argument must win over a different default
+        return COLL_URI['ci' if coll == 'cp' else 'cp']
+    return COLL_URI[coll]
+
+
+def evaluate(text: str, version: str, default_collation=None):
     """outcome of one evaluation.  The hang detector is a wall-clock alarm; on a loaded machine a
     starved worker can trip it, so a hang is only reported when a second, longer attempt hangs too."""
-    r = _evaluate_once(text, version, 10)
+    r = _evaluate_once(text, version, 10, default_collation)
     if r[0] == 'hang':
-        r = _evaluate_once(text, version, 90)
+        r = _evaluate_once(text, version, 90, default_collation)
     return r
 
 
-def _evaluate_once(text: str, version: str, timeout: int):
+def _evaluate_once(text: str, version: str, timeout: int, default_collation=None):
     import elementpath
     from elementpath.exceptions import ElementPathError
     use_alarm = threading.current_thread() is threading.main_thread()
@@ -441,10 +482,11 @@ def _evaluate_once(text: str, version: str, timeout: int):
         signal.signal(signal.SIGALRM, _on_alarm)
         signal.alarm(timeout)
     try:
+        kw = dict(default_collation=default_collation) if default_collation else {}
         if NODE_TEXT.search(text):
-            r = elementpath.select(root(), text, parser=parsers()[version])     # sequences with nodes
+            r = elementpath.select(root(), text, parser=parsers()[version], **kw)     # sequences with nodes
         else:
-            r = elementpath.select(None, text, item=1, parser=parsers()[version])
+            r = elementpath.select(None, text, item=1, parser=parsers()[version], **kw)
     except _Hang:
         return ('hang', 'alarm')
     except ElementPathError as e:
@@ -478,7 +520,7 @@ def item_mismatch(exp, obs, relax_exact: bool = False):
         return None if obs[1] == frac(exp) else 'value'
     if t in ('bool', 'node'):
         return None if obs[1] == frac(exp) else 'value'
-    if t == 'str':
+    if t in ('str', 'unt'):
         return None if tuple(obs[1]) == tuple(exp['s']) else 'value'
     if exp['k'] != 'fin':
         return None if obs[1] == exp['k'] else 'value'
@@ -499,7 +541,7 @@ def item_mismatch(exp, obs, relax_exact: bool = False):
 def class_key_exp(it):
     if it['t'] in ('int', 'dec', 'flt', 'dbl'):
         return ('num', it['k'], str(frac(it))) if it['k'] == 'fin' else ('num', it['k'], '')
-    if it['t'] == 'str':
+    if it['t'] in ('str', 'unt'):           # xs:untypedAtomic is compared as a string
         return ('str', tuple(it['s']))
     return (it['t'], str(frac(it)))
 
@@ -510,14 +552,14 @@ def class_key_obs(o):
     if o[0] in ('flt', 'dbl'):
         # the shortest decimal that denotes this double (0.1e0 -> 1/10), as in the specification
         return ('num', 'fin', str(Fraction(repr(o[2])))) if o[1] == 'fin' else ('num', o[1], '')
-    if o[0] == 'str':
+    if o[0] in ('str', 'unt'):
         return ('str', tuple(o[1]))
     if o[0] == 'bool':
         return ('bool', str(o[1]))
     return ('other', str(o))
 
 
-def compare(dst, obs, action: str, version: str):
+def compare(dst, obs, action: str, version: str, args: tuple = ()):
     """None if the observation conforms to the expected state, else an outcome-class string."""
     if obs[0] == 'escaped':
         return f'escaped:{obs[1]}'
@@ -534,6 +576,14 @@ def compare(dst, obs, action: str, version: str):
         return None if k == 'erroror' else f'error:{obs[1]}'
     exp = dst['s']
     got = obs[1]
+    if action == 'DistinctC':
+        def fold(k):
+            if k[0] == 'str' and args and args[0] == 'ci':
+                return ('str', tuple(c + 32 if 65 <= c <= 90 else c for c in k[1]))
+            return k
+        if sorted(fold(class_key_exp(x)) for x in exp) != sorted(fold(class_key_obs(o)) for o in got):
+            return 'classes'
+        return None
     if action == 'DistinctValues':
         if sorted(class_key_exp(x) for x in exp) != sorted(class_key_obs(o) for o in got):
             return 'classes'
@@ -616,6 +666,8 @@ def features(src, action, args, dst, outcome, version, spelling, level, fstyle='
                 or any(a in ('0.1', '0.1e0', '0.3e0') for a in args if isinstance(a, str)),
                 has_nan=any(x['k'] == 'nan' for x in items),
                 has_str=any(x['t'] == 'str' for x in items),
+                src_types_has_untyped=any(x['t'] == 'unt' or (x['t'] == 'node' and action not in ('NodeMap', 'NodeFor', 'NodePath'))
+                                          for x in items),
                 src_has_attr=any(x['t'] == 'node' and x['q'][0] > 1 and x['q'][0] % 2 == 1 for x in items),
                 expected_kind=('err:' + dst['code']) if dst['k'] == 'err' else dst['k'])
     for i, a in enumerate(args):
@@ -662,9 +714,10 @@ def worker(job):
                     continue
             expr = expr_for(text, action, args, n, sfx)
             for v in vs:
-                obs = evaluate(expr, v)
+                dc = default_collation_for(action, args)
+                obs = evaluate(expr, v, dc)
                 n_eval += 1
-                out = compare(dst, obs, action, v)
+                out = compare(dst, obs, action, v, args)
                 if out is not None:
                     if kind != 'nested-samevar':
                         edge_ok = False
@@ -672,7 +725,8 @@ def worker(job):
                     key = tuple(sorted((k, str(x)) for k, x in feat.items()))
                     ent = fails.get(key)
                     if ent is None:
-                        fails[key] = [feat, 1, dict(expr=expr, parser=v, action=action), dst, obs]
+                        fails[key] = [feat, 1, dict(expr=expr, parser=v, action=action, default_collation=dc,
+                                                    args=[a for a in args if isinstance(a, str)]), dst, obs]
                     else:
                         ent[1] += 1
         if action in FUNCTION_ACTIONS:
@@ -833,13 +887,13 @@ def replay_graph(chk: core.Check, name: str, g: tla.Graph, nested_k: int):
 def replay(rec: dict) -> int:
     core.setup_repo_path()
     case = rec['case']
-    obs = evaluate(case['expr'], case['parser'])
+    obs = evaluate(case['expr'], case['parser'], case.get('default_collation'))
     print('expr     :', case['expr'], ' parser', case['parser'])
     print('expected :', rec['expected'])
     print('observed :', obs)
     exp = tla.FrozenDict(rec['expected'])
     exp['s'] = tuple(tla.FrozenDict({**x, 'q': tuple(x['q']), 's': tuple(x['s'])}) for x in exp['s'])
-    out = compare(exp, obs, case.get('action', ''), case['parser'])
+    out = compare(exp, obs, case.get('action', ''), case['parser'], tuple(case.get('args', ())))
     if out is not None:
         print(f'VIOLATION property=C08 replay=(replayed) outcome={out}')
         return 1
@@ -898,7 +952,7 @@ def run(chk: core.Check) -> None:
                         'IndexOf', 'DistinctValues', 'ZeroOrOne', 'OneOrMore', 'ExactlyOne', 'Sum', 'SumZero', 'Avg',
                         'Min', 'Max', 'StringJoin', 'StringJoinAny', 'StringJoinTypeErr', 'Comma',
                         'MapFocus', 'ForFocus', 'PredFocus', 'QuantFocus', 'ForDep', 'ForDep3', 'QuantDep',
-                        'NodeMap', 'NodeFor', 'NodePath'}
+                        'NodeMap', 'NodeFor', 'NodePath', 'RangeFn', 'IndexOfC', 'DistinctC'}
     if expected_actions - all_acts:
         raise tla.MachineryError(f'actions never fired (vacuous): {sorted(expected_actions - all_acts)}')
     chk.coverage['exhaustive'] = True
